@@ -283,6 +283,7 @@ fn main() {
                 cli.drop_slot(&p.slot);
             }
         }
+        cli.cleanup();
         ctx.finish("replay of one case", false);
     }
     let ctx = &ctx;
@@ -335,6 +336,7 @@ fn main() {
     ctx.assume("a warning belongs to check M if M reports under the warning's CWE identifier (CWE119: CWE119/CWE125/CWE787, CWE416: CWE416/CWE415, Memory: CWE476, otherwise its own name) and the warning carries M's version");
     ctx.assume("an unknown name in --partial must make the run fail (any non-zero exit counts as rejection); what a failing run printed is not judged");
     ctx.assume("the differential reference for check M is M's output when run alone on the same input; runs that fail are reported and give no reference");
+    cli.cleanup();
     ctx.finish(
         "one case = (input, selection); executed checks are observed through the VERIF-RUN hook; oracle: executed set = requested set (each once), warning names within the executed set, warnings of every executed check identical to its single-check run, --module-versions lists each known check exactly once, unknown names rejected; non-trivial = run reported at least one warning",
         true,
